@@ -264,7 +264,7 @@ class C02(StreamProp):
     FULL = ["dom", "dom_str", "sj", "emb", "rdr"]
     STREAM = ["stream_bytes", "stream_slice", "stream_faststr"]
     streams = [("c02",
-                [("corr", "lazy", "m.lazy", "full")]
+                [("corr", "lazy", "m.lazy", "full"), ("corr", "dom", "m.dom", "ar")]
                 + [("oracle", f, "spec.skip", "ar") for f in SKIP]
                 + [("oracle", f, "spec.full", "ar") for f in FULL]
                 + [("oracle", f, "spec.prefix", "ar") for f in STREAM]
@@ -881,7 +881,7 @@ class C03(StreamProp):
             "non-trivial = the text is accepted and contains a container or a string")
     trusted = ["number classification/rounding is the executable Spec.Num (exact big-integer arithmetic); see C07 for what is proved about it"]
     assumptions = []
-    streams = [("c03", [("oracle", f, "spec", "dump") for f in ("whole", "whole_str", "embedded")]
+    streams = [("c03", [("corr", "whole", "m.dom", "dump")] + [("oracle", f, "spec", "dump") for f in ("whole", "whole_str", "embedded")]
                 + [("oracle", "stream2", "spec.pre", "dump"), ("oracle", "rawnum", "spec.raw.pre", "dump"), ("oracle", "lossy", "spec.lossy.pre", "dump"),
                    ("oracle", "rawnum2", "spec.raw.pre", "dump"), ("oracle", "rawnum_emb", "spec.raw", "dump")])]
 
